@@ -1,181 +1,61 @@
-From Coq Require Import List Arith NArith Bool Lia.
+(* Model of packaging.utils.canonicalize_name / is_normalized_name (C13).  Executable definitions only.
+   Strings are lists of code points.  ASCII is exact.  str.lower() is VMeaning.py_lower_c: ASCII upper case -> lower case,
+   U+0130 -> "i" U+0307, U+212A -> "k", every other code point unchanged (generators stay inside the code points for which that is
+   what CPython does; see harness/props/c13.py). *)
+From Coq Require Import List NArith Bool.
 Import ListNotations.
+Require Import VParse VMeaning.
 Open Scope N_scope.
-Arguments N.eqb : simpl never.
-Arguments N.leb : simpl never.
 
-Definition char := N.
-Definition str := list char.
-Definition is_digit (c : char) := (48 <=? c) && (c <=? 57).
-Definition is_lower (c : char) := (97 <=? c) && (c <=? 122).
 Definition is_upper (c : char) := (65 <=? c) && (c <=? 90).
-Definition is_sep (c : char) := (c =? 45) || (c =? 46) || (c =? 95).      (* - . _ *)
-Definition lower (c : char) : char := if is_upper c then c + 32 else c.  (* ASCII part of str.lower *)
+Definition is_alnum (c : char) := is_digit c || is_lower c || is_upper c.        (* [A-Z0-9] under IGNORECASE | ASCII *)
 
-(* canonicalize_name: re.sub(r"[-_.]+", "-", name).lower() *)
-Fixpoint collapse (in_run : bool) (s : str) : str :=
+(* _canonicalize_regex.sub("-", name):  every maximal run of [-_.] becomes one "-" *)
+Fixpoint sub_runs (in_run : bool) (s : str) : str :=
   match s with
   | [] => []
-  | c :: t => if is_sep c then (if in_run then collapse true t else 45 :: collapse true t)
-              else lower c :: collapse false t
+  | c :: t => if is_sep c then (if in_run then sub_runs true t else 45 :: sub_runs true t) else c :: sub_runs false t
   end.
-Definition canon_name (s : str) : str := collapse false s.
+(* canonicalize_name(name) = _canonicalize_regex.sub("-", name).lower() *)
+Definition canon_name (s : str) : str := py_lower (sub_runs false s).
 
-(* _validate_regex (after the fix: \Z and re.ASCII):  ^([A-Z0-9]|[A-Z0-9][A-Z0-9._-]*[A-Z0-9])\Z, IGNORECASE *)
-Definition is_alnum (c : char) := is_digit c || is_lower c || is_upper c.
+(* _validate_regex = ^([A-Z0-9]|[A-Z0-9][A-Z0-9._-]*[A-Z0-9])\Z   with re.IGNORECASE | re.ASCII, used with .match *)
+Definition is_cls (c : char) := is_alnum c || is_sep c.                          (* [A-Z0-9._-] *)
+(* [A-Z0-9._-]*[A-Z0-9]\Z on the rest: the greedy star backs off to the last character, which must be alphanumeric *)
+Fixpoint v_tail (t : str) : bool :=
+  match t with
+  | [] => false
+  | d :: t' => match t' with [] => is_alnum d | _ => is_cls d && v_tail t' end
+  end.
 Definition valid_name (s : str) : bool :=
   match s with
   | [] => false
-  | c :: t => is_alnum c && forallb (fun x => is_alnum x || is_sep x) t && is_alnum (last s 0)
+  | c :: t => is_alnum c && match t with [] => true (* first alternative, then \Z *) | _ => v_tail t end
   end.
-(* _normalized_regex (after the fix):  ^(?!.*--)([a-z0-9]|[a-z0-9][a-z0-9-]*[a-z0-9])\Z *)
-Definition is_la (c : char) := is_digit c || is_lower c.
-Fixpoint has_dd (s : str) : bool :=
-  match s with c :: ((d :: _) as t) => ((c =? 45) && (d =? 45)) || has_dd t | _ => false end.
-Definition is_normalized (s : str) : bool :=
+
+Inductive nres := NOk (s : str) | NInvalidName.
+Definition canonicalize_name (validate : bool) (s : str) : nres :=
+  if validate && negb (valid_name s) then NInvalidName else NOk (canon_name s).
+
+(* _normalized_regex = ^(?!.*--)([a-z0-9]|[a-z0-9][a-z0-9-]*[a-z0-9])\Z   (no flags), used with .match *)
+Definition is_la (c : char) := is_digit c || is_lower c.                         (* [a-z0-9] *)
+(* the look-ahead body .*-- tried at position 0: '.' does not match a newline *)
+Fixpoint la_dd (s : str) : bool :=
   match s with
   | [] => false
-  | c :: t => negb (has_dd s) && is_la c && forallb (fun x => is_la x || (x =? 45)) t && is_la (last s 0)
+  | c :: t => match t with
+              | d :: _ => ((c =? 45) && (d =? 45)) || (negb (c =? 10) && la_dd t)
+              | [] => false
+              end
   end.
-
-Lemma has_dd_cons c d t : has_dd (c :: d :: t) = ((c =? 45) && (d =? 45)) || has_dd (d :: t).
-Proof. reflexivity. Qed.
-(* ---- characterisation of the fixed points of canon_name ---- *)
-Definition fix_char (c : char) : bool := negb (is_upper c) && negb ((c =? 46) || (c =? 95)).
-Lemma lower_id c : lower c = c <-> is_upper c = false.
-Proof.
-  unfold lower. destruct (is_upper c) eqn:E; split; auto; try discriminate. intros H. exfalso.
-  unfold is_upper in E. apply andb_prop in E as [H1 H2]. apply N.leb_le in H1, H2. lia.
-Qed.
-Lemma sep_cases c : is_sep c = true -> c = 45 \/ c = 46 \/ c = 95.
-Proof. unfold is_sep. intros H. apply orb_prop in H as [H|H]; [apply orb_prop in H as [H|H]|]; apply N.eqb_eq in H; auto. Qed.
-Lemma collapse_len b s : (length (collapse b s) <= length s)%nat.
-Proof. revert b; induction s as [|c t IH]; intros b; simpl; auto. destruct (is_sep c), b; simpl; try apply le_n_S; auto. Qed.
-Lemma collapse_true_sep c t : is_sep c = true -> collapse true (c :: t) <> c :: t.
-Proof.
-  intros H E. simpl in E. rewrite H in E. pose proof (collapse_len true t) as L. rewrite E in L. simpl in L. lia.
-Qed.
-
-Lemma collapse_fix s : forall b, collapse b s = s <->
-  (forallb fix_char s = true /\ has_dd s = false /\ (b = true -> match s with c :: _ => is_sep c = false | [] => True end)).
-Proof.
-  induction s as [|c t IH]; intros b.
-  - simpl. intuition.
-  - cbn [collapse]. destruct (is_sep c) eqn:Es.
-    + destruct b.
-      * split; [intros E; exfalso; apply (collapse_true_sep c t Es); simpl; now rewrite Es | intros (_ & _ & H); specialize (H eq_refl); simpl in H; congruence].
-      * split.
-        -- intros E. injection E as Ec Et. subst c. apply IH in Et as (F & D & S). specialize (S eq_refl).
-           repeat split; try discriminate.
-           ++ simpl. rewrite F. reflexivity.
-           ++ destruct t as [|d t']; auto. rewrite has_dd_cons, D.
-              destruct (d =? 45) eqn:E45; auto. apply N.eqb_eq in E45. subst d. discriminate.
-        -- intros (F & D & _). cbn [forallb] in F. apply andb_prop in F as [Fc Ft].
-           assert (c = 45). { apply sep_cases in Es as [->|[->| ->]]; auto; discriminate. } subst c.
-           f_equal. apply IH. repeat split; auto.
-           ++ destruct t as [|d t']; auto. rewrite has_dd_cons in D. apply orb_false_elim in D as [_ D]. exact D.
-           ++ intros _. destruct t as [|d t']; auto. rewrite has_dd_cons in D. apply orb_false_elim in D as [D _].
-              destruct (is_sep d) eqn:Ed; auto. cbn [forallb] in Ft. apply andb_prop in Ft as [Fd _].
-              apply sep_cases in Ed as [->|[->| ->]]; discriminate.
-    + split.
-      * intros E. injection E as Ec Et. apply lower_id in Ec. apply IH in Et as (F & D & _).
-        repeat split; auto.
-        -- cbn [forallb]. rewrite F, andb_true_r. unfold fix_char. rewrite Ec. cbn [negb andb].
-           unfold is_sep in Es. apply orb_false_elim in Es as [Es E95]. apply orb_false_elim in Es as [_ E46]. now rewrite E46, E95.
-        -- destruct t as [|d t']; auto. rewrite has_dd_cons, D.
-           unfold is_sep in Es. apply orb_false_elim in Es as [Es _]. apply orb_false_elim in Es as [E45 _]. now rewrite E45.
-      * intros (F & D & _). cbn [forallb] in F. apply andb_prop in F as [Fc Ft].
-        unfold fix_char in Fc. apply andb_prop in Fc as [Fu _]. apply negb_true_iff in Fu.
-        f_equal; [now apply lower_id|]. apply IH. repeat split; auto; try discriminate.
-        destruct t as [|d t']; auto. rewrite has_dd_cons in D. apply orb_false_elim in D as [_ D]. exact D.
-Qed.
-
-Lemma la_alnum c : is_la c = true -> is_alnum c = true.
-Proof. unfold is_la, is_alnum. intros ->. reflexivity. Qed.
-Lemma la_fix c : is_la c = true -> fix_char c = true.
-Proof.
-  unfold is_la, fix_char, is_digit, is_lower, is_upper. intros H.
-  apply orb_prop in H as [H|H]; apply andb_prop in H as [H1 H2]; apply N.leb_le in H1, H2.
-  - rewrite (proj2 (N.leb_gt 65 c)) by lia. cbn. rewrite !(proj2 (N.eqb_neq _ _)) by lia. reflexivity.
-  - rewrite (proj2 (N.leb_gt c 90)) by lia. rewrite andb_false_r. cbn. rewrite !(proj2 (N.eqb_neq _ _)) by lia. reflexivity.
-Qed.
-Lemma alnum_fix_la c : is_alnum c = true -> fix_char c = true -> is_la c = true.
-Proof.
-  unfold is_alnum, is_la, fix_char. intros H F. apply andb_prop in F as [F _]. apply negb_true_iff in F.
-  rewrite F in H. now rewrite orb_false_r in H.
-Qed.
-Lemma sep_fix_dash c : is_sep c = true -> fix_char c = true -> (c =? 45) = true.
-Proof.
-  intros H F. apply sep_cases in H as [->|[->| ->]]; auto; discriminate.
-Qed.
-Lemma last_in (s : str) d : s <> [] -> In (last s d) s.
-Proof.
-  induction s as [|c t IH]; [congruence|]. intros _. destruct t as [|c' t']; [left; reflexivity|].
-  right. apply IH. discriminate.
-Qed.
-
-Theorem C13_is_normalized_iff s :
-  is_normalized s = true <-> valid_name s = true /\ canon_name s = s.
-Proof.
-  unfold canon_name. rewrite collapse_fix. destruct s as [|c t]; [simpl; intuition discriminate|].
-  unfold is_normalized, valid_name. split.
-  - intros H. apply andb_prop in H as [H Hl]. apply andb_prop in H as [H Ht]. apply andb_prop in H as [Hd Hc].
-    apply negb_true_iff in Hd. rewrite forallb_forall in Ht. repeat split; auto; try discriminate.
-    + rewrite (la_alnum _ Hc), (la_alnum _ Hl). rewrite andb_true_r. cbn [andb]. apply forallb_forall.
-      intros x Hx. specialize (Ht x Hx). apply orb_prop in Ht as [Ht|Ht]; [now rewrite la_alnum|].
-      apply N.eqb_eq in Ht. subst x. reflexivity.
-    + cbn [forallb]. rewrite (la_fix _ Hc). apply forallb_forall. intros x Hx. specialize (Ht x Hx).
-      apply orb_prop in Ht as [Ht|Ht]; [now apply la_fix|]. apply N.eqb_eq in Ht. subst x. reflexivity.
-  - intros (V & F & D & _). apply andb_prop in V as [V Vl]. apply andb_prop in V as [Vc Vt].
-    cbn [forallb] in F. apply andb_prop in F as [Fc Ft]. rewrite forallb_forall in Vt, Ft.
-    rewrite D. cbn [negb andb]. rewrite (alnum_fix_la _ Vc Fc). cbn [andb].
-    assert (Fl : fix_char (last (c :: t) 0) = true).
-    { pose proof (last_in (c :: t) 0 ltac:(discriminate)) as [<-|I]; auto. }
-    rewrite (alnum_fix_la _ Vl Fl), andb_true_r. apply forallb_forall. intros x Hx.
-    specialize (Vt x Hx). specialize (Ft x Hx). apply orb_prop in Vt as [Vt|Vt].
-    + now rewrite alnum_fix_la.
-    + rewrite (sep_fix_dash _ Vt Ft). apply orb_true_r.
-Qed.
-Print Assumptions C13_is_normalized_iff.
-(* non-vacuity *)
-Example ex_norm : is_normalized [102;111;111;45;98;97;114] = true /\ is_normalized [97;45;45;98] = false /\ is_normalized [97;10] = false.
-Proof. repeat split. Qed.
-
-(* ---- idempotence: the output of canon_name is a fixed point ---- *)
-Lemma lower_fix c : is_sep c = false -> fix_char (lower c) = true.
-Proof.
-  intros Hs. unfold fix_char, lower. unfold is_sep in Hs. apply orb_false_elim in Hs as [Hs H95]. apply orb_false_elim in Hs as [H45 H46].
-  destruct (is_upper c) eqn:U.
-  - unfold is_upper in *. apply andb_prop in U as [U1 U2]. apply N.leb_le in U1, U2.
-    rewrite (proj2 (N.leb_gt (c + 32) 90)) by lia. rewrite andb_false_r. cbn [negb andb].
-    rewrite !(proj2 (N.eqb_neq _ _)) by lia. reflexivity.
-  - rewrite U. cbn [negb andb]. now rewrite H46, H95.
-Qed.
-Lemma lower_not_sep c : is_sep c = false -> is_sep (lower c) = false.
-Proof.
-  intros Hs. unfold lower. destruct (is_upper c) eqn:U; auto.
-  unfold is_upper in U. apply andb_prop in U as [U1 U2]. apply N.leb_le in U1, U2. unfold is_sep.
-  rewrite !(proj2 (N.eqb_neq _ _)) by lia. reflexivity.
-Qed.
-Lemma collapse_props s : forall b,
-  forallb fix_char (collapse b s) = true /\ has_dd (collapse b s) = false /\
-  (b = true -> match collapse b s with c :: _ => (c =? 45) = false | [] => True end).
-Proof.
-  induction s as [|c t IH]; intros b; cbn [collapse]; [repeat split; auto|].
-  destruct (is_sep c) eqn:Es.
-  - destruct b.
-    + apply IH.
-    + destruct (IH true) as (F & D & H). specialize (H eq_refl). repeat split; try discriminate.
-      * cbn [forallb]. now rewrite F.
-      * destruct (collapse true t) as [|d r] eqn:E; auto. rewrite has_dd_cons, D, H. reflexivity.
-  - destruct (IH false) as (F & D & _). repeat split.
-    + cbn [forallb]. now rewrite F, lower_fix.
-    + destruct (collapse false t) as [|d r] eqn:E; auto. rewrite has_dd_cons, D.
-      pose proof (lower_not_sep c Es) as L. unfold is_sep in L. apply orb_false_elim in L as [L _]. apply orb_false_elim in L as [L _]. now rewrite L.
-    + intros _. pose proof (lower_not_sep c Es) as L. unfold is_sep in L. apply orb_false_elim in L as [L _]. apply orb_false_elim in L as [L _]. exact L.
-Qed.
-Theorem C13_canon_idempotent s : canon_name (canon_name s) = canon_name s.
-Proof.
-  unfold canon_name. apply collapse_fix. destruct (collapse_props s false) as (F & D & _). repeat split; auto. discriminate.
-Qed.
-Print Assumptions C13_canon_idempotent.
+Fixpoint n_tail (t : str) : bool :=
+  match t with
+  | [] => false
+  | d :: t' => match t' with [] => is_la d | _ => (is_la d || (d =? 45)) && n_tail t' end
+  end.
+Definition is_normalized (s : str) : bool :=
+  negb (la_dd s) &&
+  match s with
+  | [] => false
+  | c :: t => is_la c && match t with [] => true | _ => n_tail t end
+  end.
